@@ -22,7 +22,8 @@ PROFILES = {
     'C01': dict(flavours=['plain', 'bound', 'refl', 'single', 'deferred'], slots=[], faults=False,
                 w=dict(connect=30, emit=28, disc=14, block=10, query=4, copy=4, move=6, scoped=0, blocker=0, ev=4)),
     # C04: every disconnect route, copies, held callables
-    'C04': dict(flavours=['plain', 'bound', 'refl', 'single', 'deferred'], slots=[], faults=False,
+    'C04': dict(flavours=['plain', 'bound', 'refl', 'single', 'deferred', 'deferred'],
+                slots=['disch', 'discall', 'scdrop', 'discs_safe', 'active', 'disch'], faults=False,
                 w=dict(connect=28, emit=16, disc=22, block=0, query=10, copy=8, move=6, scoped=8, blocker=0, ev=4,
                        sigdel=3)),
     # C05: deferred connections, passes, re-entrancy inside passes
